@@ -1,3 +1,4 @@
+\* refuted design: TLC must report CopyCounts violated
 SPECIFICATION Spec
 CONSTANTS Kinds = {"DE", "DE2", "NM", "PW"}
   NP = 2
@@ -5,10 +6,6 @@ CONSTANTS Kinds = {"DE", "DE2", "NM", "PW"}
   MaxInst = 3
   MaxCells = 10
   Settings <- QSettings
-  Design = "ok"
+  Design = "copy_detached_counter"
   MaxOps = 3
-INVARIANT TypeOK
-INVARIANT ResumeEquivalence
 INVARIANT CopyCounts
-INVARIANT RngLabelsFunctional
-PROPERTY Independence
